@@ -581,7 +581,20 @@ pub fn gen_logical(r: &mut Rng, cfg: &Cfg, o: &GenOpts) -> Logical {
         form_pairs,
         body,
         content_type,
-        host: r.pick(&[&b"example.amazonaws.com"[..], b"localhost:8080", b"h", b"EXAMPLE.com"]).to_vec(),
+        host: r
+            .pick(&[
+                &b"example.amazonaws.com"[..],
+                b"example.amazonaws.com",
+                b"localhost:8080",
+                b"h",
+                b"EXAMPLE.com",
+                b"example.com:443",
+                b"h:80",
+                b"example.com.",
+                b"[::1]:443",
+                b"EXAMPLE.COM:8443",
+            ])
+            .to_vec(),
         extra,
         carrier,
         date_mode,
